@@ -22,7 +22,7 @@ from vsim.digest import ProbeSet, first_difference
 from vsim.rng import mix
 from vsim.runner import Engine, Result
 from vsim.ser import ser, deser, canon, canon_outcome
-from vsim.valgen import corrupt
+from vsim.valgen import corrupt, ValGen, Unsupported
 
 CODECS = ['ber', 'der', 'per', 'uper', 'oer', 'jer', 'xer', 'gser']
 OP_BUDGET = 1500000
@@ -89,12 +89,19 @@ class C18(Engine):
             rng = random.Random(mix(run_seed, 'ops'))
             values = random.Random(mix(run_seed, 'values'))
             faults = random.Random(mix(run_seed, 'faults'))
-            drawn = world.draw_messages(parsed, values,
-                                        knobs.choice([5, 10, 20, 50]), codec,
-                                        numeric_enums=numeric_enums)
+            gen = ValGen(parsed, values, numeric_enums=numeric_enums,
+                         max_depth=3,
+                         absent_additions=codec not in world.TEXT_CODECS,
+                         addition_bias=knobs.choice([0.25, 0.5, 0.7]))
+            types = gen.top_types()
+            # A few "hot" types get most of the traffic, so that the same
+            # compiled objects are hit repeatedly and from several threads.
+            hot = values.sample(types, min(len(types),
+                                           knobs.choice([1, 1, 2, 3])))
+            target = knobs.choice([5, 10, 20, 50])
+            later = []   # follow-up operations inserted further down
 
-            for type_name, value in drawn:
-                roll = rng.random()
+            def base_op(type_name):
                 op = {'type': type_name,
                       'thread': rng.randrange(n_threads),
                       'check_types': rng.random() < 0.7,
@@ -103,11 +110,41 @@ class C18(Engine):
                 if codec in ('jer', 'xer', 'gser') and rng.random() < 0.3:
                     op['indent'] = rng.choice([1, 2, 4])
 
+                return op
+
+            attempts = 0
+
+            while len(ops) + len(later) < target and attempts < 4 * target:
+                attempts += 1
+
+                if later and rng.random() < 0.35:
+                    ops.append(later.pop(rng.randrange(len(later))))
+                    continue
+
+                module_name, type_name = values.choice(
+                    hot if rng.random() < 0.75 else types)
+
+                try:
+                    value = gen.value(module_name, type_name)
+                except Unsupported:
+                    continue
+
+                roll = rng.random()
+                op = base_op(type_name)
+
                 if roll < 0.3 or codec == 'gser':
                     op.update(kind='encode', value=ser(value))
-                elif roll < 0.5:
+                elif roll < 0.55:
                     op.update(kind='encode',
                               value=ser(corrupt(value, values)))
+
+                    # The same value, uncorrupted, later on (possibly on
+                    # another thread): residue of the failed call would
+                    # show there.
+                    if rng.random() < 0.6:
+                        follow = base_op(type_name)
+                        follow.update(kind='encode', value=ser(value))
+                        later.append(follow)
                 elif roll < 0.75:
                     op.update(kind='decode', value=ser(value),
                               fault={'kind': 'none'})
@@ -115,7 +152,15 @@ class C18(Engine):
                     op.update(kind='decode', value=ser(value),
                               fault=wire.draw_fault(faults, codec, 1.0))
 
+                    if rng.random() < 0.4:
+                        follow = base_op(type_name)
+                        follow.update(kind='decode', value=ser(value),
+                                      fault={'kind': 'none'})
+                        later.append(follow)
+
                 ops.append(op)
+
+            ops.extend(later)
 
         schedule_rng = random.Random(mix(run_seed, 'schedule'))
         kind = schedule_rng.choice(['random', 'random', 'random', 'pct',
